@@ -1349,4 +1349,4 @@ REQUIRED_PROBES = {
 }
 
 
-RULE_MORE = {'C14': ' Added in the build rounds: unusual package names (dots, spaces, quotes, backslashes) in three quoting styles, require() in 24 syntactic positions and inside game-loop functions (to packages nothing else reaches, possibly missing), functions whose names merely start with a game-loop name, CRLF packages with multi-line strings (long-string contents compared exactly), packages in a directory of their own name (entry with two ?), a vendor package behind a path component that is a file, global flags, and earlier builds in the same process (unrelated project, the same files with older contents, a failing build whose --lua-path names same-named decoys). Round 6: require names holding a byte that is not valid UTF-8 next to decoy files named without it (must fail); OUT\'s previous code starting with title comments in line, block and multi-line block form; comments in front of the package table are not counted as code; the arguments object of the build used before, for another OUT, under another PICO8_LUA_PATH (command function called directly). Round 7: package files rewritten with contents of the same size and their previous timestamps before the rebuild; the project directory as a symbolic link with a library beside its target, found through a load-path entry with `..` (a decoy beside the link); files whose first statement starts with glyph characters that are the bytes of a byte order mark; fault OPEN-TRANSIENT (one package file cannot be opened once): the build fails with OUT as it was, or yields the complete cart.'}
+RULE_MORE = {'C14': " Added in the build rounds: unusual package names (dots, spaces, quotes, backslashes) in three quoting styles, require() in 24 syntactic positions and inside game-loop functions (to packages nothing else reaches, possibly missing), functions whose names merely start with a game-loop name, CRLF packages with multi-line strings (long-string contents compared exactly), packages in a directory of their own name (entry with two ?), a vendor package behind a path component that is a file, global flags, and earlier builds in the same process (unrelated project, the same files with older contents, a failing build whose --lua-path names same-named decoys). Round 6: require names holding a byte that is not valid UTF-8 next to decoy files named without it (must fail); OUT's previous code starting with title comments in line, block and multi-line block form; comments in front of the package table are not counted as code; the arguments object of the build used before, for another OUT, under another PICO8_LUA_PATH (command function called directly). Round 7: package files rewritten with contents of the same size and their previous timestamps before the rebuild; the project directory as a symbolic link with a library beside its target, found through a load-path entry with `..` (a decoy beside the link); files whose first statement starts with glyph characters that are the bytes of a byte order mark; fault OPEN-TRANSIENT (one package file cannot be opened once): the build fails with OUT as it was, or yields the complete cart. Round 8: dense projects (10-12 modules that each require the same 9-11 libraries: a hundred and more require() calls for names already embedded); one file required under two names (its name, and its name with the extension spelled out) with opposite use_game_loop choices, each name getting a block of its own and the require() calls inside kept game-loop functions being followed; `;` inside package names."}
